@@ -45,6 +45,7 @@ pub struct HistCounters {
     pub envelope_violations_sent: u64,
     pub messages_ending_in_empty_frame: u64,
     pub reconnects_same_identity: u64,
+    pub cooperative_yields: u64,
     pub max_overtaken: u64,
     pub probes: u64,
 }
@@ -204,6 +205,11 @@ pub async fn run(o: &HistOpts) -> HistOutcome {
             if joins_left > 0 {
                 acts.push((4, 0));
             }
+            for (i, p) in ps.iter().enumerate() {
+                if !p.ended && p.peer.conn.unread() > 0 && r.chance(1, 6) {
+                    acts.push((6, i)); // its next reads yield cooperatively
+                }
+            }
             // a peer whose messages were all delivered goes away and comes back under its
             // identity (its next messages continue the same sequence)
             if o.late_joiners > 0 && !o.saturate && !o.leavers {
@@ -294,6 +300,10 @@ pub async fn run(o: &HistOpts) -> HistOutcome {
                             c.peers_reset += 1;
                         }
                     }
+                }
+                6 => {
+                    ps[i].peer.conn.yield_next_reads(r.range(1, 3) as u32);
+                    c.cooperative_yields += 1;
                 }
                 5 => {
                     ps[i].peer.conn.close_full(EndKind::Eof);
